@@ -36,6 +36,9 @@ func runC11(c *Check, tier string) {
 	ruleEveryLoadedPackageRegistered(c, "R11m")
 	// the workspace root as a directory output contains every path
 	rulePrefixContainmentHandlesDot(c, "R11n")
+	ruleOutputIdentity(c, "R11o")
+	// the ancestor sets the conflict detection compares are computed from the declared edges
+	ruleAdjacencyNotAliased(c, "R11p")
 }
 
 func isNoReturnCall(in ssa.Instruction) bool {
